@@ -80,6 +80,9 @@ func main() {
 		fmt.Fprintln(os.Stderr, "usage: gvc verify <func>... | dump <func> | check <id> <tier> | list")
 		os.Exit(2)
 	}
+	if v := os.Getenv("VERIF_SEED"); v != "" {
+		fmt.Sscan(v, &solverSeed)
+	}
 	initWorkDir()
 	defer cleanupWorkDir()
 	code := run(os.Args[1:])
